@@ -259,6 +259,14 @@ histories:
 					continue
 				}
 				evals++
+				// what is proven is what the state holds: the read-only view's own Get agrees with the height's state
+				if got, ge := ro.Get(key(k)); ge != nil {
+					report("history.error", fmt.Sprintf("history=%d seed=%d height=%d key=%d: Get: %v trace=%v", h, seed, v, k, ge, trace))
+				} else if val, present := states[v][k]; present != (got != nil) && !(present && val == "" && len(got) == 0) {
+					report("history.state", fmt.Sprintf("history=%d seed=%d height=%d key=%d: the state read at this height says present=%v, the history says present=%v - proofs against the committed root would be about a state the store does not hold; trace=%v", h, seed, v, k, got != nil, present, trace))
+				} else if present && string(got) != val {
+					report("history.state", fmt.Sprintf("history=%d seed=%d height=%d key=%d: value read %q, history says %q; trace=%v", h, seed, v, k, got, val, trace))
+				}
 				if val, present := states[v][k]; present {
 					if !verify(key(k), []byte(val), true, proof) {
 						report("history.completeness.member", fmt.Sprintf("history=%d seed=%d height=%d key=%d: membership proof of a present key rejected against the committed root; trace=%v", h, seed, v, k, trace))
